@@ -23,6 +23,14 @@ use crate::sched::{Policy, Sched, SchedStats, Switch, KIND_NAMES};
 
 pub struct SchedEngine;
 
+/// Stack of a simulated thread (address space only; pages are touched as used). Together with
+/// `JOB_DEPTH_LIMIT` it lets a generated project that imports itself (an index file whose body
+/// is the corpus item `@import "foo/.."`) end as the same deterministic `depth` outcome in
+/// reference and run, instead of a stack overflow that kills the run process: unbounded
+/// recursion of the stylesheet's own making is outside the property.
+const SIM_STACK: usize = 256 << 20;
+const JOB_DEPTH_LIMIT: u32 = 500;
+
 pub const REF_KEY: u64 = 0x5EED_0F_7E_F0_0D;
 pub const PROC_REF_KEY: u64 = 0x0DDB_A11_5EED_77;
 
@@ -177,7 +185,7 @@ fn compare(reference: &Obs, obs: &Obs) -> Option<(String, String)> {
 fn run_reference(job: &JobSpec, key: u64) -> Obs {
     let j = job.clone();
     std::thread::Builder::new()
-        .stack_size(8 << 20)
+        .stack_size(SIM_STACK)
         .spawn(move || {
             crate::seams::set_thread_entropy(Some(key));
             crate::detalloc::set_region(1, 0);
@@ -268,7 +276,7 @@ pub fn execute(case: &SchedCase, proc_refs: &[((usize, usize), String, String)])
         let t2 = t.clone();
         let results2 = results.clone();
         let h = std::thread::Builder::new()
-            .stack_size(8 << 20)
+            .stack_size(SIM_STACK)
             .spawn(move || {
                 crate::seams::set_thread_entropy(Some(t2.entropy));
                 crate::detalloc::set_region(2 + tid, t2.heap_shift);
@@ -779,10 +787,16 @@ fn gen_case(rng: &mut Rng, ctx: &Ctx, pools: &Pools) -> SchedCase {
                 jobs.push(again);
             }
         }
+        for j in jobs.iter_mut() {
+            j.depth_limit = JOB_DEPTH_LIMIT;
+        }
         // a mutate-then-observe pair somewhere in this thread's history
         if rng.chance(0.2) {
             let (a, b) = gen_history_pair(rng, density);
             let at = rng.usize_below(jobs.len() + 1);
+            let (mut a, mut b) = (a, b);
+            a.depth_limit = JOB_DEPTH_LIMIT;
+            b.depth_limit = JOB_DEPTH_LIMIT;
             jobs.insert(at, a);
             let gap = if rng.chance(0.3) && at + 1 < jobs.len() { 1 } else { 0 };
             jobs.insert(at + 1 + gap, b);
